@@ -491,9 +491,7 @@ class Interp:
         return fr.kret(self.ev(s.value, env, fr), env)
 
     def st_Raise(self, s, env, fr, cont):
-        if fr.in_loop:
-            self.U(fr, s, "raise inside a loop")
-        return ('Raise',)
+        return ('Raise',)      # also inside a loop: the path yields no value (the loop's other paths are kept: sound)
 
     def st_Pass(self, s, env, fr, cont):
         return cont(env)
@@ -709,8 +707,8 @@ class Interp:
             return self.exec_block(s.body if c[1] else s.orelse, env, fr, cont)
         tb, te = terminates(s.body), terminates(s.orelse)
         if tb or te:
-            if fr.in_loop:
-                self.U(fr, s, "return/raise inside a loop")
+            if fr.in_loop and any(isinstance(x, ast.Return) for br in (s.body, s.orelse) for y in br for x in ast.walk(y)):
+                self.U(fr, s, "return inside a loop")
             A = self.exec_block(s.body, env, fr, cont)
             B = self.exec_block(s.orelse, refined, fr, cont)
             return ('If', c, A, B)
@@ -1263,7 +1261,7 @@ class Interp:
             fr.out_kernel = ast.unparse(n.args[0])
         return V(('Ctor', data.e, dt), 'T')
 
-    BUILTIN_NAMES = ('len', 'range', 'int', 'float', 'tuple', 'list', 'sum', 'isinstance', 'slice', 'str', 'any', 'all', 'abs', 'bool', 'type')
+    BUILTIN_NAMES = ('len', 'range', 'int', 'float', 'tuple', 'list', 'sorted', 'set', 'sum', 'isinstance', 'slice', 'str', 'any', 'all', 'abs', 'bool', 'type', 'max', 'min')
 
     def builtin(self, name, n, env, fr):
         if n.keywords:
@@ -1286,7 +1284,7 @@ class Interp:
             return V(('ToInt', args[0].e), 'A')
         if name == 'float':
             return V(('Bin', PYFLOAT, ('ToInt', args[0].e)), 'A')
-        if name in ('tuple', 'list'):
+        if name in ('tuple', 'list', 'sorted', 'set'):      # containers: same elements (order / multiplicity are shape-level)
             if not args:
                 return V(('Seq', []), 'A', ('list', []))
             a = args[0]
@@ -1296,12 +1294,14 @@ class Interp:
                     return V(self.comp(n.args[0], env, fr).e, 'T')   # stands for every element of a multi-result
                 return a
             if a.st and a.st[0] == 'list':
-                return a
+                return a if name in ('tuple', 'list') else V(a.e, a.tag)
             if a.tag != 'A':
                 return V(a.e, a.tag)        # tuple(x) of a list-of-tensors operand: the same pile
             return V(('Seq', [('Elem', a.e)]), 'A')
         if name == 'sum':
             return V(('Bin', PYINT, ('Elem', args[0].e)), 'A')
+        if name in ('max', 'min') and len(args) == 2:
+            return V(('Choice', args[0].e, args[1].e), 'A')      # one of its arguments
         if name == 'slice':
             return V(OPAQUE, 'A')
         if name in ('str', 'type'):
@@ -1403,6 +1403,8 @@ class Interp:
         if name == 'tensordot' and len(n.args) == 2 and set(kws) <= {'axes'}:
             evall()
             return V(('Tensordot', arg(0).e, arg(1).e), 'A')
+        if name == 'argsort' and len(n.args) == 1 and not kws:
+            return V(('ToArr', ('Reduce', 'RArg', ('AsArray', arg(0).e), SHAPE, TRUE)), 'A')     # an int64 index array
         if name == 'unravel_index' and len(n.args) == 2 and not kws:
             evall()
             return V(OPAQUE, 'A')
@@ -1442,8 +1444,46 @@ class Interp:
             return self.red(self.NP_RED[name], b, n, env, fr, 0)
         self.U(fr, n, "method .%s" % name)
 
+    def callable_param_call(self, n, env, fr):
+        """call of a PARAMETER of the function being translated (first_extremum_mask's arg_fn): resolved from the call
+        sites - every call site must pass a NumPy function, and all of them must have the same dtype-transfer for this call"""
+        fd = getattr(fr, 'fd', None)
+        pname = n.func.id
+        if fd is None or pname not in [a.arg for a in fd.args.args]:
+            return None
+        pidx = [a.arg for a in fd.args.args].index(pname)
+        sites = []
+        for q, mod in self.w.mods.items():
+            for sub in ast.walk(mod.tree):
+                if isinstance(sub, ast.Call):
+                    fn = sub.func
+                    hit = (isinstance(fn, ast.Name) and fn.id == fd.name and (q == fr.mod.qual or (mod.alias.get(fn.id, (None,))[0] == 'from' and mod.alias[fn.id][1] == fr.mod.qual))) or \
+                          (isinstance(fn, ast.Attribute) and fn.attr == fd.name and isinstance(fn.value, ast.Name) and mod.alias.get(fn.value.id) == ('mod', fr.mod.qual))
+                    if hit:
+                        kw = {k.arg: k.value for k in sub.keywords}
+                        a = sub.args[pidx] if pidx < len(sub.args) else kw.get(pname)
+                        sites.append((q, sub.lineno, a))
+        if not sites:
+            self.U(fr, n, "callable parameter %s of %s: no call site found" % (pname, fd.name))
+        results = []
+        for q, ln, a in sites:
+            if not (isinstance(a, ast.Attribute) and isinstance(a.value, ast.Name) and self.w.mods[q].alias.get(a.value.id) == ('np',)):
+                self.U(fr, n, "callable parameter %s of %s: the call site %s:%d passes %s, not a NumPy function" % (pname, fd.name, q, ln, ast.unparse(a) if a is not None else None))
+            results.append((a.attr, self.np_call(a.attr, n, env, fr)))
+        if any(r.e != results[0][1].e for _, r in results):
+            self.U(fr, n, "callable parameter %s of %s: call sites pass functions with different dtype behaviour: %s" % (pname, fd.name, sorted(set(x for x, _ in results))))
+        fr_used = getattr(self.w, 'callable_params', None)
+        if fr_used is None:
+            self.w.callable_params = fr_used = {}
+        fr_used[(fr.mod.qual, fd.name, pname)] = sorted(set(x for x, _ in results))
+        return results[0][1]
+
     def ex_Call(self, n, env, fr):
         f = n.func
+        if isinstance(f, ast.Name) and env.has(f.id) and fr.mode == 'kernel':
+            r = self.callable_param_call(n, env, fr)
+            if r is not None:
+                return r
         if isinstance(f, ast.Name) and not env.has(f.id):
             name = f.id
             if name in self.BUILTIN_NAMES and name not in fr.mod.funcs:
@@ -1486,8 +1526,9 @@ class Interp:
                     if st[1] == 'np':
                         return self.np_call('.'.join(chain), n, env, fr)
                     if st[1] == 'math':
-                        for a in n.args:
-                            self.ev(a, env, fr)
+                        vs = [self.ev(a, env, fr) for a in n.args]
+                        if chain == ['prod'] and len(vs) == 1:
+                            return V(('Bin', PYINT, ('Elem', vs[0].e)), 'A')      # product of the elements (Python ints stay ints)
                         return V(PYFLOAT, 'A')
                     if st[1] == 'mod' and len(chain) == 1:
                         modq = st[2]
